@@ -354,7 +354,7 @@ func (ev *Ev) specCall(x *ast.CallExpr) Value {
 		if t == nil || v.S != SRef {
 			return ev.errorf(x.Pos(), "typeIs: need a reference and a type")
 		}
-		return boolV(app("=", app(u.dynTypeFn(), v.T), u.dynTypeID(t)))
+		return boolV(and(not(app("=", v.T, "nil")), app("=", app(u.dynTypeFn(), v.T), u.dynTypeID(t))))
 	}
 	// spec function?
 	if name != "" {
